@@ -82,8 +82,20 @@ def selftest(ctx):
                % (sname, sweep[sname]["breaks"]))
     silent = 0
     for bp in sorted(glob.glob(os.path.join(VERIF, "selftest", "benign", "*.diff"))):
-        st, out = run_vtry(bp, ctx.prop)
         name = os.path.basename(bp)
+        # `<patch>.audit` lists properties whose conservative panic audit is *expected* to ask
+        # for a review of the refactored code (a new index or arithmetic site): "Cxx reason"
+        expected = {}
+        if os.path.exists(bp + ".audit"):
+            for line in open(bp + ".audit"):
+                if line.strip() and not line.startswith("#"):
+                    pid, why = line.strip().split(None, 1)
+                    expected[pid] = why
+        if ctx.prop in expected:
+            ctx.listed("SELFTEST", "benign patches that add a site the panic audit must review",
+                       "%s: %s" % (name, expected[ctx.prop]))
+            continue
+        st, out = run_vtry(bp, ctx.prop)
         if st == "skipped":
             skipped += 1
             ctx.listed("SELFTEST", "skipped (patch does not apply to the current tree)", name)
